@@ -227,7 +227,7 @@ Section ListLawProofs.
     assert (list_ok dom mn mx (o_after (list_step vld mn mx l lo)) = true) as OK
       by (apply list_ok_LInv; split; assumption).
     split; [|exact OK]. unfold law_list_step.
-    apply forallb_Forall in F. rewrite F, LN. cbn [chk app].
+    apply forallb_Forall in F. rewrite F, LN, !orb_true_r. cbn [chk app].
     destruct (o_out (list_step vld mn mx l lo)) as [[]|e] eqn:EO.
     - cbn [is_trait_error is_raise negb orb chk app]. rewrite (list_success_acc mn mx l lo EO). reflexivity.
     - destruct (list_failing_inert vld mn mx l lo e EO) as [HA HE]. rewrite HA, HE, zlist_eqb_refl.
@@ -355,7 +355,7 @@ Section SetLawProofs.
   Proof.
     intros I. apply forallb_Forall in I.
     pose proof (set_inv vld _ Hdom s so I) as F. apply forallb_Forall in F.
-    split; [|exact F]. unfold law_set_step. rewrite F. cbn [chk app].
+    split; [|exact F]. unfold law_set_step. rewrite F, orb_true_r. cbn [chk app].
     destruct (so_out (set_step vld s so)) as [|e] eqn:EO.
     - cbn [s_is_trait_error s_is_raise negb orb chk app].
       assert (forallb acc (so_offered s so) = true) as ->; [|reflexivity].
@@ -516,7 +516,7 @@ Section DictLawProofs.
   Proof.
     intros I. apply dokb_DInv in I.
     pose proof (dict_inv kv vv _ _ Hkdom Hvdom m o I) as F. apply dokb_DInv in F.
-    split; [|exact F]. unfold law_dict_step. unfold dokb in F. rewrite F. cbn [chk app].
+    split; [|exact F]. unfold law_dict_step. unfold dokb in F. rewrite F, orb_true_r. cbn [chk app].
     destruct (do_out (dict_step kv vv m o)) as [|e] eqn:EO.
     - cbn [d_is_trait_error d_is_raise negb orb chk app].
       assert (forallb (fun p => kacc (fst p) && vacc (snd p)) (do_offered m o) = true) as ->; [|reflexivity].
@@ -740,7 +740,7 @@ Section NestedLawProofs.
     { apply forallb_Forall. eapply Forall_impl; [|exact F]. cbn. intros a [Ha _]. apply forallb_Forall. exact Ha. }
     assert (forallb (fun l0 => len_ok imn imx (zlen l0)) (n_after (step l o)) = true) as ->.
     { apply forallb_Forall. eapply Forall_impl; [|exact F]. cbn. intros a [_ Ha]. exact Ha. }
-    rewrite LN. cbn [andb chk app].
+    rewrite LN, !orb_true_r. cbn [andb chk app].
     destruct (n_out (step l o)) as [[]|e] eqn:EO.
     - cbn [is_trait_error is_raise negb orb chk app]. rewrite (nested_success_acc l o EO). reflexivity.
     - destruct (nested_failing_inert vld imn omn imx omx l o e EO) as [HA HE]. rewrite HA, HE.
@@ -765,3 +765,182 @@ Section NestedHist.
     rewrite H1, (IH _ _ H2). reflexivity.
   Qed.
 End NestedHist.
+
+(* ================= Dict(K, List(T)) ================= *)
+Section NDictProofs.
+  Variable kv vld : Z -> option Z.
+  Variable PK P : Z -> Prop.
+  Hypothesis HK : forall x y, kv x = Some y -> PK y.
+  Hypothesis HP : forall x y, vld x = Some y -> P y.
+  Variable imn : Z.
+  Variable imx : option Z.
+
+  Definition NDP (p : Z * list Z) : Prop := PK (fst p) /\ LInv P imn imx (snd p).
+  Definition NDInv (m : ndict) : Prop := Forall NDP m.
+  Notation step := (ndict_step kv vld imn imx).
+
+  Lemma F_nd_set k v m : NDP (k, v) -> Forall NDP m -> Forall NDP (nd_set k v m).
+  Proof.
+    intros Hp F. induction m as [|[k' v'] m IH]; cbn; [constructor; [exact Hp|constructor]|].
+    inversion F; subst. destruct (k =? k'); constructor; auto.
+  Qed.
+  Lemma F_nd_update ps : forall m, Forall NDP ps -> Forall NDP m -> Forall NDP (nd_update ps m).
+  Proof.
+    induction ps as [|[k v] ps IH]; intros m Fp Fm; cbn; [exact Fm|].
+    inversion Fp; subst. apply IH; [assumption|]. apply F_nd_set; assumption.
+  Qed.
+  Lemma F_nd_remove k m : Forall NDP m -> Forall NDP (nd_remove k m).
+  Proof.
+    intros F. apply Forall_forall. intros x Hx. apply filter_In in Hx. rewrite Forall_forall in F. apply F, Hx.
+  Qed.
+  Lemma nd_lookup_In k m v : nd_lookup k m = Some v -> In (k, v) m.
+  Proof.
+    induction m as [|[k' v'] m IH]; cbn; [discriminate|]. destruct (Z.eqb_spec k k') as [->|].
+    - intros H. inversion H. left. reflexivity.
+    - intros H. right. apply IH. exact H.
+  Qed.
+  Lemma nd_set_same k v m : nd_lookup k m = Some v -> nd_set k v m = m.
+  Proof.
+    induction m as [|[k' v'] m IH]; cbn; [discriminate|]. destruct (Z.eqb_spec k k') as [->|].
+    - intros H. inversion H. reflexivity.
+    - intros H. f_equal. apply IH. exact H.
+  Qed.
+
+  Lemma nd_vld_pairs_P ps qs : nd_vld_pairs kv vld imn imx ps = Some qs -> Forall NDP qs.
+  Proof.
+    revert qs. induction ps as [|[k r] ps IH]; intros qs H; cbn in H.
+    - inversion H. constructor.
+    - destruct (kv k) as [k'|] eqn:K; [|discriminate]. destruct (ivld vld imn imx r) as [y|] eqn:V; [|discriminate].
+      destruct (nd_vld_pairs kv vld imn imx ps) as [t|]; [|discriminate]. inversion H.
+      constructor; [|apply IH; reflexivity]. split; cbn; [eapply HK; exact K|eapply ivld_Q; eassumption].
+  Qed.
+
+  Theorem ndict_inv m o : NDInv m -> NDInv (nd_after (step m o)).
+  Proof.
+    intros F. unfold NDInv in *. destruct o as [k r|ps|k r|k|k| |ps|k io]; cbn [ndict_step].
+    - destruct (kv k) as [k'|] eqn:K; [|exact F]. destruct (ivld vld imn imx r) as [y|] eqn:V; [|exact F].
+      cbn. apply F_nd_set; [|exact F]. split; cbn; [eapply HK; exact K|eapply ivld_Q; eassumption].
+    - destruct (nd_vld_pairs kv vld imn imx ps) as [qs|] eqn:V; [|exact F]. cbn.
+      apply F_nd_update; [eapply nd_vld_pairs_P; exact V|exact F].
+    - destruct (nd_lookup k m); [exact F|].
+      destruct (kv k) as [k'|] eqn:K; [|exact F]. destruct (ivld vld imn imx r) as [y|] eqn:V; [|exact F].
+      cbn. apply F_nd_set; [|exact F]. split; cbn; [eapply HK; exact K|eapply ivld_Q; eassumption].
+    - destruct (nd_lookup k m); [|exact F]. cbn. apply F_nd_remove. exact F.
+    - destruct (nd_lookup k m); [|exact F]. cbn. apply F_nd_remove. exact F.
+    - cbn. constructor.
+    - destruct (nd_vld_pairs kv vld imn imx ps) as [qs|] eqn:V; [|exact F]. cbn.
+      apply F_nd_update; [eapply nd_vld_pairs_P; exact V|constructor].
+    - destruct (nd_lookup k m) as [inner|] eqn:N; [|exact F]. cbn.
+      pose proof (nd_lookup_In k m inner N) as Hin. rewrite Forall_forall in F. destruct (F _ Hin) as [HKk HQ].
+      apply F_nd_set; [|apply Forall_forall; exact F]. split; cbn; [exact HKk|].
+      apply (tlo_inv vld P HP imn imx inner io HQ).
+  Qed.
+
+  Theorem ndict_failing_inert m o e :
+    nd_out (step m o) = Raise e -> nd_after (step m o) = m /\ nd_events (step m o) = 0%nat.
+  Proof.
+    destruct o as [k r|ps|k r|k|k| |ps|k io]; cbn [ndict_step]; unfold ndraise, ndok;
+      repeat match goal with
+             | |- context [match ?x with _ => _ end] =>
+                 lazymatch x with
+                 | tlo_step _ _ _ _ _ => fail
+                 | _ => destruct x eqn:?
+                 end
+             end; cbn [nd_out nd_after nd_events]; intros H; try discriminate; auto.
+    match goal with
+    | N : nd_lookup k m = Some ?inner |- _ =>
+        destruct (tlo_failing_inert vld imn imx inner io e H) as [HA HE]; rewrite HA, HE;
+        split; [apply nd_set_same; exact N|reflexivity]
+    end.
+  Qed.
+
+  Theorem ndict_inv_reachable : forall ops m, NDInv m ->
+    Forall (fun p => NDInv (nd_after (snd p))) (ndict_run kv vld imn imx m ops).
+  Proof.
+    induction ops as [|o ops IH]; intros m I; cbn [ndict_run]; constructor.
+    - cbn. apply ndict_inv. exact I.
+    - apply IH. apply ndict_inv. exact I.
+  Qed.
+End NDictProofs.
+
+Lemma nd_eqb_refl (m : ndict) : nd_eqb m m = true.
+Proof.
+  unfold nd_eqb. induction m as [|[k v] m IH]; cbn; [reflexivity|].
+  rewrite Z.eqb_refl, zlist_eqb_refl, IH. reflexivity.
+Qed.
+
+Section NDictLawProofs.
+  Variable kv vld : Z -> option Z.
+  Variable kdom kacc dom acc : Z -> bool.
+  Hypothesis Hkdom : forall x y, kv x = Some y -> kdom y = true.
+  Hypothesis Hkacc : forall x y, kv x = Some y -> kacc x = true.
+  Hypothesis Hdom : forall x y, vld x = Some y -> dom y = true.
+  Hypothesis Hacc : forall x y, vld x = Some y -> acc x = true.
+  Variable imn : Z.
+  Variable imx : option Z.
+  Notation step := (ndict_step kv vld imn imx).
+  Notation okb := (ndict_ok kdom dom imn imx).
+
+  Lemma okb_NDInv m : okb m = true <-> NDInv (fun x => kdom x = true) (fun x => dom x = true) imn imx m.
+  Proof.
+    unfold ndict_ok, NDInv, NDP. rewrite forallb_Forall.
+    split; intros F; eapply Forall_impl; try exact F; cbn; intros [k v]; cbn.
+    - intros H. apply andb_true_iff in H. destruct H as [H L]. apply andb_true_iff in H. destruct H as [HK' HD].
+      split; [exact HK'|]. apply (list_ok_LInv dom imn imx v). unfold list_ok. rewrite HD, L. reflexivity.
+    - intros [HK' HL]. apply (list_ok_LInv dom imn imx v) in HL. unfold list_ok in HL.
+      apply andb_true_iff in HL. destruct HL as [HD L]. rewrite HK', HD, L. reflexivity.
+  Qed.
+
+  Lemma nd_vld_pairs_acc ps qs : nd_vld_pairs kv vld imn imx ps = Some qs ->
+    forallb (fun p => kacc (fst p) && raw_acc acc imn imx (snd p)) ps = true.
+  Proof.
+    revert qs. induction ps as [|[k r] ps IH]; intros qs H; cbn in *; [reflexivity|].
+    destruct (kv k) as [k'|] eqn:K; [|discriminate]. destruct (ivld vld imn imx r) as [y|] eqn:V; [|discriminate].
+    destruct (nd_vld_pairs kv vld imn imx ps) as [t|]; [|discriminate].
+    rewrite (Hkacc k k' K), (ivld_acc vld acc Hacc imn imx r y V), (IH t eq_refl). reflexivity.
+  Qed.
+
+  Lemma ndict_success_acc m o :
+    nd_out (step m o) = Ok tt ->
+    forallb (fun p => kacc (fst p) && raw_acc acc imn imx (snd p)) (nd_offered m o)
+    && forallb acc (nd_inner_offered o) = true.
+  Proof.
+    destruct o as [k r|ps|k r|k|k| |ps|k io]; cbn [ndict_step nd_offered nd_inner_offered]; unfold ndraise, ndok;
+      repeat match goal with
+             | |- context [match ?x with _ => _ end] =>
+                 lazymatch x with
+                 | tlo_step _ _ _ _ _ => fail
+                 | _ => destruct x eqn:?
+                 end
+             end; cbn [nd_out]; intros H; try discriminate; try reflexivity; cbn [forallb fst snd];
+      repeat match goal with
+             | V : kv _ = Some _ |- _ => apply Hkacc in V; rewrite V
+             | V : ivld _ _ _ _ = Some _ |- _ => apply (ivld_acc vld acc Hacc) in V; rewrite V
+             | V : nd_vld_pairs _ _ _ _ _ = Some _ |- _ => apply nd_vld_pairs_acc in V; rewrite V
+             end; try reflexivity.
+    cbn.
+    match goal with
+    | N : nd_lookup k m = Some ?inner |- _ => apply (list_success_acc vld acc Hacc imn imx inner (LOp io)); exact H
+    end.
+  Qed.
+
+  Theorem ndict_law_step m o :
+    okb m = true ->
+    law_ndict_step kdom kacc dom acc imn imx m o (step m o) = [] /\ okb (nd_after (step m o)) = true.
+  Proof.
+    intros I. apply okb_NDInv in I.
+    pose proof (ndict_inv kv vld _ _ Hkdom Hdom imn imx m o I) as F. apply okb_NDInv in F.
+    split; [|exact F]. unfold law_ndict_step. rewrite F, orb_true_r. cbn [chk app].
+    destruct (nd_out (step m o)) as [[]|e] eqn:EO.
+    - cbn [is_trait_error is_raise negb orb chk app]. rewrite (ndict_success_acc m o EO). reflexivity.
+    - destruct (ndict_failing_inert kv vld imn imx m o e EO) as [HA HE]. rewrite HA, HE, nd_eqb_refl.
+      cbn. rewrite !orb_true_r. destruct e; reflexivity.
+  Qed.
+
+  Theorem ndict_law_hist : forall ops m i, okb m = true ->
+    law_ndict_hist kdom kacc dom acc imn imx i m (ndict_run kv vld imn imx m ops) = [].
+  Proof.
+    induction ops as [|o ops IH]; intros m i I; cbn [ndict_run law_ndict_hist]; [reflexivity|].
+    destruct (ndict_law_step m o I) as [H1 H2]. rewrite H1, (IH _ _ H2). reflexivity.
+  Qed.
+End NDictLawProofs.
